@@ -14,6 +14,8 @@ package main
 import (
 	"encoding/json"
 	"fmt"
+	"github.com/markkurossi/mpc/compiler"
+	"github.com/markkurossi/mpc/compiler/utils"
 	"math/big"
 	"math/rand"
 	"reflect"
@@ -921,6 +923,99 @@ func randBits(rng *rand.Rand, w int) []int {
 	return b
 }
 
+// c13StructArgs: a struct-typed argument of main whose members mix sized and unsized types, instantiated from the
+// sizes of the spelled values (as apps/garbled does).  The compiled program returns every member: what comes out must
+// be what was spelled, member by member - the layout Parse/Set put on the wires is the layout the program reads.
+func c13StructArgs(out *ndWriter, rng *rand.Rand) {
+	type member struct {
+		decl string // field declaration
+		bits int    // bits of the spelled value (for unsized members), else the declared width
+		ret  string // expression returning it, and its type
+		rt   string
+	}
+	pool := []member{
+		{"key []byte", 24, "g.key[1]", "byte"}, {"tag uint16", 16, "g.tag", "uint16"}, {"n uint", 20, "g.n", "uint"},
+		{"id uint8", 8, "g.id", "uint8"}, {"flag bool", 1, "g.flag", "bool"}, {"m int", 12, "g.m", "int"}, {"w uint32", 32, "g.w", "uint32"},
+	}
+	for ci := 0; ci < 24; ci++ {
+		res := &Result{Case: 900000 + ci, Class: "struct-argument", Nontrivial: true}
+		perm := rng.Perm(len(pool))
+		nm := 2 + rng.Intn(4)
+		var ms []member
+		for _, k := range perm[:nm] {
+			ms = append(ms, pool[k])
+		}
+		var decls, rets, rts, spell []string
+		var want []*big.Int
+		for _, m := range ms {
+			decls = append(decls, "\t"+m.decl)
+			rets = append(rets, m.ret)
+			rts = append(rts, m.rt)
+			v := new(big.Int).Rand(rng, new(big.Int).Lsh(big.NewInt(1), uint(m.bits)))
+			v.SetBit(v, m.bits-1, 1) // the spelling has exactly m.bits bits
+			switch {
+			case m.rt == "bool":
+				spell = append(spell, "true")
+				want = append(want, big.NewInt(1))
+			case strings.HasPrefix(m.decl, "key"):
+				b := v.FillBytes(make([]byte, 3))
+				spell = append(spell, fmt.Sprintf("0x%x", b))
+				want = append(want, big.NewInt(int64(b[1])))
+			default:
+				spell = append(spell, fmt.Sprintf("0x%x", v))
+				want = append(want, v)
+			}
+		}
+		src := fmt.Sprintf("package main\n\ntype G struct {\n%s\n}\n\nfunc main(g G, e uint8) (%s, uint8) {\n\treturn %s, e\n}\n",
+			strings.Join(decls, "\n"), strings.Join(rts, ", "), strings.Join(rets, ", "))
+		sx, err := circuit.InputSizes(spell)
+		if err != nil {
+			res.drift("InputSizes(%v): %v", spell, err)
+			out.put(res)
+			continue
+		}
+		var circ *circuit.Circuit
+		func() {
+			defer func() {
+				if x := recover(); x != nil {
+					err = fmt.Errorf("compiler panic: %v", x)
+				}
+			}()
+			params := utils.NewParams()
+			params.MPCLCErrorLoc = false
+			circ, _, err = compiler.New(params).Compile(src, [][]int{sx, {8}})
+		}()
+		if err != nil {
+			res.Class = "struct-argument:rejected"
+			res.Sample = map[string]string{"src": src, "error": err.Error()}
+			out.put(res)
+			continue
+		}
+		g, err := circ.Inputs[0].Parse(spell)
+		if err != nil {
+			res.viol("parse:struct-argument", "Parse(%v) for %v: %v", spell, circ.Inputs[0], err)
+			out.put(res)
+			continue
+		}
+		ins := circ.Inputs[0].Compound.Split(g)
+		ins = append(ins, big.NewInt(7))
+		got, err := circ.Compute(ins)
+		if err != nil {
+			res.drift("Compute: %v", err)
+			out.put(res)
+			continue
+		}
+		for i, w := range want {
+			mask := new(big.Int).Sub(new(big.Int).Lsh(big.NewInt(1), uint(circ.Outputs[i].Type.Bits)), big.NewInt(1))
+			if i >= len(got) || new(big.Int).And(got[i], mask).Cmp(new(big.Int).And(w, mask)) != 0 {
+				res.viol("struct-argument:member", "main(g) returns %s = %v, the argument was spelled %v (member %d of %v)\n%s", ms[i].ret, got[i], spell, i, decls, src)
+				break
+			}
+		}
+		out.put(res)
+	}
+}
+
 func c13Main(args []string) error {
 	if len(args) < 2 {
 		return fmt.Errorf("usage: vh c13 replay|wide ...")
@@ -964,6 +1059,7 @@ func c13Main(args []string) error {
 			return err
 		}
 		defer out.close()
+		c13StructArgs(out, rng)
 		tr, err := newND(args[2])
 		if err != nil {
 			return err
